@@ -100,6 +100,9 @@ def plan_pairs(tier, seed):
         # a set on the right (different value type)
         pr("u8", "U2", "hi", "all", "canonical", "structural", right_kind="set", threads=4),
         pr("u32", "U2", "hi", "whole", "structural", "structural", right_kind="set", threads=4),
+        # sets on the left / on both sides
+        pr("u16", "U2", "hi", "all", "canonical", "canonical", left_kind="set", right_kind="set", threads=2),
+        pr("Ipv4Net", "U2", "hi", "whole", "structural", "structural", left_kind="set", right_kind="map", threads=4),
     ]
     # other types and the bottom-of-address embedding: canonical x canonical, all root pairs
     for t in (ALL if tier == "thorough" else REP7):
